@@ -4,10 +4,9 @@ from .absint import *
 from .kmodel import *
 from .thir import Lib
 
-LIN = '<interp1d::strategies::linear::Linear as interp1d::strategies::Interp1DStrategy>::interp_into'
-SPL = '<interp1d::strategies::cubic_spline::CubicSplineStrategy as interp1d::strategies::Interp1DStrategy>::interp_into'
-BIL = '<interp2d::strategies::bilinear::Bilinear as interp2d::strategies::Interp2DStrategy>::interp_into'
-EXTRAP = 'interp1d::strategies::cubic_spline::Extrapolate'
+LIN = '<Linear as Interp1DStrategy>::interp_into'
+SPL = '<CubicSplineStrategy as Interp1DStrategy>::interp_into'
+BIL = '<Bilinear as Interp2DStrategy>::interp_into'
 
 
 STRICT = False     # True while rules about rejection / panic freedom run (C05, C06 guard tables, C14)
@@ -44,56 +43,58 @@ def _classify(out):
     return 'other', repr(out)
 
 
-def run_linear(lib, ext, rel):
-    b = lib.body(LIN)
-    scn = {'queries': {'q': 'x'}, 'rel_x': rel, 'ext': ext}
+def _run(lib, path, scn, make_strategy, make_interp, qs):
+    b = lib.body(path)
     m = KModel(scn)
     m.assume_asserts = not STRICT
     it = Interp(lib, m)
-    strat = Enum('interp1d::strategies::linear::Linear', 'Linear', {'extrapolate': B(ext)})
-    io = interp1d_obj(strat)
     try:
-        out = it.call_def(b['def'], [Ref(ValPlace(strat)), Ref(ValPlace(io)), Obj('target'), Num(Rat.atom('q'))])
+        if b is None:
+            raise Unsupported("strategy kernel `%s` not found" % path)
+        strat = make_strategy()
+        io = make_interp(strat)
+        out = it.call_def(b['def'], [Ref(ValPlace(strat)), Ref(ValPlace(io)), Obj('target')] + [Num(Rat.atom(q)) for q in qs])
         kind, err = _classify(out)
         return Outcome(scn, kind, m, out, err)
     except (Unsupported, Diverge) as ex:
         return Outcome(scn, 'exc', m, exc=ex)
 
 
-def run_spline(lib, ext, rel):
-    """ext in ('Yes','No','Periodic')"""
-    b = lib.body(SPL)
+def run_linear(lib, ext, rel, strategy=None):
+    from . import strategies as S
     scn = {'queries': {'q': 'x'}, 'rel_x': rel, 'ext': ext}
-    m = KModel(scn)
-    m.assume_asserts = not STRICT
-    it = Interp(lib, m)
-    strat = Enum('interp1d::strategies::cubic_spline::CubicSplineStrategy', 'CubicSplineStrategy',
-                 {'a': Obj('data', name='a', lead=1, idx=[]), 'b': Obj('data', name='b', lead=1, idx=[]),
-                  'extrapolate': Enum(EXTRAP, ext)})
-    io = interp1d_obj(strat)
-    try:
-        out = it.call_def(b['def'], [Ref(ValPlace(strat)), Ref(ValPlace(io)), Obj('target'), Num(Rat.atom('q'))])
-        kind, err = _classify(out)
-        return Outcome(scn, kind, m, out, err)
-    except (Unsupported, Diverge) as ex:
-        return Outcome(scn, 'exc', m, exc=ex)
+    return _run(lib, LIN, scn, (lambda: strategy) if strategy is not None else (lambda: S.linear(lib, ext)), interp1d_obj, ['q'])
 
 
-def run_bilinear(lib, ext, relx, rely):
-    b = lib.body(BIL)
+def run_spline(lib, ext, rel, strategy=None):
+    """ext in ('Yes','No','Periodic'): the strategy as built through the public builder with (flag, boundary) =
+    (true, NotAKnot) / (false, NotAKnot) / (true, Periodic); or an explicit finished strategy value"""
+    from . import strategies as S
+    scn = {'queries': {'q': 'x'}, 'rel_x': rel, 'ext': ext}
+    return _run(lib, SPL, scn, (lambda: strategy) if strategy is not None else (lambda: S.spline_by_mode(lib, ext)), interp1d_obj, ['q'])
+
+
+def run_bilinear(lib, ext, relx, rely, strategy=None):
+    from . import strategies as S
     scn = {'queries': {'qx': 'x', 'qy': 'y'}, 'rel_x': relx, 'rel_y': rely, 'ext': ext}
-    m = KModel(scn)
-    m.assume_asserts = not STRICT
-    it = Interp(lib, m)
-    strat = Enum('interp2d::strategies::bilinear::Bilinear', 'Bilinear', {'extrapolate': B(ext)})
-    io = interp2d_obj(strat)
-    try:
-        out = it.call_def(b['def'], [Ref(ValPlace(strat)), Ref(ValPlace(io)), Obj('target'),
-                                     Num(Rat.atom('qx')), Num(Rat.atom('qy'))])
-        kind, err = _classify(out)
-        return Outcome(scn, kind, m, out, err)
-    except (Unsupported, Diverge) as ex:
-        return Outcome(scn, 'exc', m, exc=ex)
+    return _run(lib, BIL, scn, (lambda: strategy) if strategy is not None else (lambda: S.bilinear(lib, ext)), interp2d_obj, ['qx', 'qy'])
+
+
+def behaviour_class(lib, strategy, family='S'):
+    """what a finished 1-D strategy does with an out-of-range query, read off the guard table:
+    'rejects' | 'extrapolates' (computes from the unmodified query) | 'wraps' (computes from a shifted query) | 'mixed: ...'"""
+    import copy
+    res = []
+    for rel in ('below', 'above'):
+        o = (run_spline if family == 'S' else run_linear)(lib, None, rel, strategy=copy.deepcopy(strategy))
+        if o.kind == 'err' and o.err == OOB:
+            res.append('rejects')
+        elif o.kind == 'ok':
+            args = [str(v) for _, v in o.m.lookups]
+            res.append('extrapolates' if args and all(a == 'q' for a in args) else 'wraps')
+        else:
+            res.append('%s:%s' % (o.kind, o.err or o.exc))
+    return res[0] if res[0] == res[1] else 'mixed: below %s, above %s' % tuple(res)
 
 
 def in_range(rel):
